@@ -425,6 +425,21 @@ fn build_type(
                         #conflicting_impl_doc
                         const #conflicting_impl_ident: () = ();
                     }
+                } else if let [direct_base, _, ..] = field_path.as_slice() {
+                    // Further up, the fields may be private to another module: go through the
+                    // direct base's own conversion instead of naming them here.
+                    quote! {
+                        impl ::std::convert::AsRef<#type_> for #name_ident {
+                            fn as_ref(&self) -> & #type_ {
+                                ::std::convert::AsRef::<#type_>::as_ref(&self.#direct_base)
+                            }
+                        }
+                        impl ::std::convert::AsMut<#type_> for #name_ident {
+                            fn as_mut(&mut self) -> &mut #type_ {
+                                ::std::convert::AsMut::<#type_>::as_mut(&mut self.#direct_base)
+                            }
+                        }
+                    }
                 } else {
                     quote! {
                         impl ::std::convert::AsRef<#type_> for #name_ident {
